@@ -543,7 +543,8 @@ class World:
             if name == 'append':
                 if not ty.listlike:
                     raise Unsupported('append on a set')
-                ex.vc('nodup.append@%d' % line, z3.Not(t[x]), line, note='list modelled as set: element appended twice')
+                if not getattr(ty, 'dups_ok', False):
+                    ex.vc('nodup.append@%d' % line, z3.Not(t[x]), line, note='list modelled as set: element appended twice')
             ex.write(recv, z3.Store(t, x, True), line)
             return None
         if name in ('discard',):
@@ -557,7 +558,7 @@ class World:
         if name in ('update', 'extend', '__ior__'):
             for a in args:
                 o = self.as_set_term(ex, a, E)
-                if name == 'extend' and ty.listlike:
+                if name == 'extend' and ty.listlike and not getattr(ty, 'dups_ok', False):
                     ex.vc('nodup.extend@%d' % line, z3.Map(_and_decl(), t, o) == ty.empty(), line)
                 t = z3.Map(_or_decl(), t, o)
             ex.write(recv, t, line)
@@ -577,7 +578,7 @@ class World:
             return None
         if name == 'copy':
             return ex.newbox(t, ty)
-        if name == 'count' and ty.listlike:
+        if name == 'count' and ty.listlike and not getattr(ty, 'dups_ok', False):
             return V(z3.If(t[ex.to_z3(args[0], E)], z3.IntVal(1), z3.IntVal(0)), INT)
         if name == 'sort' and ty.listlike:
             return None     # order is abstracted
